@@ -463,4 +463,68 @@ Definition step (cfg : config) (w : world) (e : event) : world :=
 
 Definition run (cfg : config) (w : world) (evs : list event) : world := fold_left (step cfg) evs w.
 
+(* ------------------------------------------------------------------------------------------ *)
+(* BrowserWorld: one browser with a cookie jar talking to the authenticator.
+
+   The jar models BROWSER behaviour (RFC 6265 §5.3, steps 11-12): a Set-Cookie whose expiry
+   (Expires in the past, or Max-Age <= 0) has already passed REMOVES the cookie of that name;
+   any other Set-Cookie STORES it — also when its value is empty. Every later request carries
+   exactly what the jar holds. This is what makes ClearCSRF (cookie_store.go:118-121: empty
+   value, Expires one hour ago) a deletion, and what would make SetCSRF("") a live empty cookie. *)
+
+Record set_cookie := mkSC { sc_value : str; sc_expired : bool }.
+
+Definition jar_apply (jar : option str) (sc : set_cookie) : option str :=
+  if sc_expired sc then None else Some (sc_value sc).
+Definition jar_apply_all (jar : option str) (l : list set_cookie) : option str :=
+  fold_left jar_apply l jar.
+
+(* SetCSRF (cookie_store.go:123-126): value = nonce, Expires = now + CookieExpire (7 days) *)
+Definition start_set_cookies (r : start_response) : list set_cookie :=
+  match sr_csrf_set r with Some n => [mkSC n false] | None => [] end.
+(* ClearCSRF: value "", Expires = now - 1h *)
+Definition callback_set_cookies (r : cb_response) : list set_cookie :=
+  if cr_csrf_cleared r then [mkSC [] true] else [].
+(* ClearSession expires the session cookie; SaveSession stores it *)
+Definition sess_jar_apply (jar : option session) (op : cookie_op) : option session :=
+  match op with OpClear => None | OpSet s => Some s end.
+
+Record bworld := mkBW {
+  bw_now : Z;
+  bw_csrf : option str;         (* jar: the CSRF cookie *)
+  bw_sess : option session;     (* jar: the session cookie (always a seal under KCookie) *)
+  bw_starts : list str          (* ghost: nonces this browser received from /start, newest first *)
+}.
+Definition bworld0 (t0 : Z) : bworld := mkBW t0 None None [].
+
+Inductive bevent :=
+| BvTick (d : N)
+| BvStart (nonce : str) (rq : start_request)         (* nonce: the server's random choice *)
+| BvCallback (rq : cb_request) (rd : redeem_reply)    (* cb_csrf of rq is IGNORED: the jar decides *)
+| BvSignIn (p : pkind) (rq : si_request) (rr : refresh_reply) (vr : validate_reply).
+
+Definition with_csrf (rq : cb_request) (v : option str) : cb_request :=
+  mkCB (cb_get rq) (cb_error rq) (cb_code rq) (cb_state rq) v (cb_redirect_ok rq).
+
+Definition jar_cookie (j : option session) : cookie :=
+  match j with Some s => CkSealed KCookie s | None => CkNone end.
+
+Definition bstep (cfg : config) (w : bworld) (e : bevent) : bworld :=
+  match e with
+  | BvTick d => mkBW (bw_now w + Z.of_N d) (bw_csrf w) (bw_sess w) (bw_starts w)
+  | BvStart nonce rq =>
+      let r := oauth_start nonce rq in
+      mkBW (bw_now w) (jar_apply_all (bw_csrf w) (start_set_cookies r)) (bw_sess w)
+           (match sr_csrf_set r with Some n => n :: bw_starts w | None => bw_starts w end)
+  | BvCallback rq rd =>
+      let r := oauth_callback cfg (bw_now w) (with_csrf rq (bw_csrf w)) rd in
+      mkBW (bw_now w) (jar_apply_all (bw_csrf w) (callback_set_cookies r))
+           (match cr_saved r with Some s => Some s | None => bw_sess w end) (bw_starts w)
+  | BvSignIn p rq rr vr =>
+      let r := sign_in_route cfg p (bw_now w) rq (jar_cookie (bw_sess w)) rr vr in
+      mkBW (bw_now w) (bw_csrf w) (fold_left sess_jar_apply (r_ops r) (bw_sess w)) (bw_starts w)
+  end.
+
+Definition brun (cfg : config) (w : bworld) (evs : list bevent) : bworld := fold_left (bstep cfg) evs w.
+
 End Flow.
